@@ -312,6 +312,12 @@ func (s *Stream) ReceiveFrame(ctx context.Context) ([]byte, error) {
 
 	// Handle zero-length messages
 	if messageLength == 0 {
+		// A protected frame always carries at least the 16-byte auth tag, so an
+		// empty wire frame on an encrypting stream is a forgery: reject it rather
+		// than bypass decryption.
+		if s.gcm != nil && s.encrypted {
+			return nil, fmt.Errorf("empty frame on encrypted stream")
+		}
 		return []byte{}, nil
 	}
 
@@ -367,6 +373,12 @@ func (s *Stream) ReceiveFrameWithEnd(ctx context.Context) ([]byte, byte, error) 
 
 	// Handle zero-length messages
 	if messageLength == 0 {
+		// A protected frame always carries at least the 16-byte auth tag, so an
+		// empty wire frame on an encrypting stream is a forgery: reject it rather
+		// than bypass decryption.
+		if s.gcm != nil && s.encrypted {
+			return nil, 0, fmt.Errorf("empty frame on encrypted stream")
+		}
 		// Track header for AAD digest calculation
 		if s.recvDigest != nil && s.finalRecvDigest == nil {
 			s.recvDigest.Write(header)
